@@ -32,7 +32,7 @@ ValueClasses == {"scalars", "struct", "chan", "func", "complex", "unsafe-pointer
 Outcome == {"value", "error"}
 Cases == {[op |-> "decode", entry |-> e, input |-> i, with |-> r] : e \in DecodeEntries, i \in InputClasses, r \in Receivers}
     \cup {[op |-> "unmarshal", entry |-> e, input |-> i, with |-> t] : e \in UnmarshalEntries, i \in InputClasses, t \in Templates}
-    \cup {[op |-> "marshal", entry |-> e, input |-> v, with |-> "default"] : e \in MarshalEntries, v \in ValueClasses}
+    \cup {[op |-> "marshal", entry |-> e, input |-> v, with |-> w] : e \in MarshalEntries, v \in ValueClasses, w \in {"default", "recursion"}}
 
 (* the protocol: which outcomes a call may have *)
 May(cs) == Outcome
